@@ -511,16 +511,24 @@ func cmdCheck(args []string) int {
 			}
 		}
 	}
+	sweepFns := 0
 	for _, k := range keys {
 		con := e.spec.Contracts[k]
 		for _, r := range con.Requires {
 			assumptions = append(assumptions, con.Key+": requires "+r.Text+" (checked at call sites under contract; assumed for callers outside)")
+		}
+		if con.Sweep {
+			sweepFns++
+			continue
 		}
 		if con.NoRte {
 			assumptions = append(assumptions, con.Key+": absence of run-time errors is NOT claimed for this function (norte): only its contract clauses are proved, assuming execution does not panic")
 		} else if con.NoNil {
 			assumptions = append(assumptions, con.Key+": nil dereferences are not claimed for this function (nonil)")
 		}
+	}
+	if sweepFns > 0 {
+		assumptions = append(assumptions, fmt.Sprintf("%d functions are in the zero-annotation sweep (sweep_verif.go): only their own index/slice/string-index/type-assertion/division/make/nil-map/panic obligations are proved; nil dereferences are not claimed for them and the preconditions of the functions they call are assumed at those call sites", sweepFns))
 	}
 	assumptions = append(assumptions, propAssumptions[prop]...)
 	sort.Strings(g.fns)
